@@ -29,7 +29,10 @@ func (m *Model) RunEvalErr(s *Sink, rule string) {
 				cnt++
 				n++
 				key := fmt.Sprintf("%s|result of Eval #%d is returned or error-tested before use", fnKey(fn), cnt)
-				bad := m.untestedUse(c, c, map[ssa.Value]bool{})
+				if m.evalWrapper(fn) != 0 {
+					continue // the wrapper itself: it hands the result and its error test to the caller
+				}
+				bad := m.untestedUse(c, evalValue(m, c), map[ssa.Value]bool{})
 				if bad == nil {
 					s.OK(rule, key, m.InstrPos(c), "every use is isError(x), a return, or lies under isError(x) == false")
 				} else {
@@ -51,7 +54,7 @@ func (m *Model) untestedUse(root *ssa.Call, v ssa.Value, seen map[ssa.Value]bool
 		return nil
 	}
 	seen[v] = true
-	aliases := []ssa.Value{root, v}
+	aliases := []ssa.Value{evalValue(m, root), v}
 	for _, r := range *v.Referrers() {
 		switch x := r.(type) {
 		case *ssa.DebugRef, *ssa.Return:
